@@ -39,6 +39,7 @@ func runC19(c *Ctx) {
 	}
 	c19Retry(c)
 	c19Timeout(c)
+	c19TimeoutPing(c)
 	c19Reconnecting(c)
 }
 
@@ -699,6 +700,84 @@ func c19Timeout(c *Ctx) {
 		if kind == c19PubQ1 && net != nil {
 			c.Sample(map[string]any{"part": "timeout", "scenario": name, "OnError": seen, "wire": net.TraceStrings()})
 		}
+	}
+}
+
+// c19TimeoutPing: which of the two endings a Ping through the retrying client reports. With
+// ResponseTimeout set, Ping waits on a context derived from the caller's; the error must say which one
+// ended: the caller's context error stays findable with errors.Is when the caller's context ended first
+// (by cancellation or by its own, earlier deadline) and such an error is not a RequestTimeoutError;
+// when ResponseTimeout expires first the error is identifiable as *RequestTimeoutError.
+func c19TimeoutPing(c *Ctx) {
+	c.Bound("timeout.ping", "RetryClient{ResponseTimeout: 2s}.Ping on a connected BaseClient whose peer never answers; caller context in {cancelled at 500ms, deadline 500ms, deadline 30s (ResponseTimeout first), Background}; <= 1 preemption")
+	for _, how := range []string{"caller-cancel", "caller-deadline", "response-timeout-first", "response-timeout-bg"} {
+		how := how
+		name := "C19/timeout/ping/" + how + "/P1"
+		var net *env.Net
+		var seen string
+		sc := &vrt.Scenario{
+			Name:  name,
+			Bound: vrt.Budget{P: 1},
+			Cfg:   vrt.Config{Horizon: int64(60e9)},
+			Body: func() {
+				net = env.NewNet()
+				seen = ""
+				s := env.NewScript(net)
+				s.AutoConnAck = true
+				rc := &mqtt.RetryClient{ResponseTimeout: 2 * vtime.Second}
+				bg := vctx.Background()
+				rc.SetClient(bg, &mqtt.BaseClient{Transport: s.Conn})
+				if _, err := rc.Connect(bg, "c19"); err != nil {
+					vrt.Failf("timeout/setup", "connect: %v", err)
+					return
+				}
+				pctx, pcancel := bg, func() {}
+				switch how {
+				case "caller-cancel":
+					pctx, pcancel = vctx.WithCancel(bg)
+				case "caller-deadline":
+					pctx, pcancel = vctx.WithTimeout(bg, 500*vtime.Millisecond)
+				case "response-timeout-first":
+					pctx, pcancel = vctx.WithTimeout(bg, 30*vtime.Second)
+				}
+				ret := false
+				var perr error
+				vrt.Go("c19-ping", func() { perr = rc.Ping(pctx); ret = true })
+				vrt.Sleep(int64(500 * vtime.Millisecond))
+				if how == "caller-cancel" {
+					pcancel()
+				}
+				vrt.Sleep(int64(5 * vtime.Second))
+				vrt.Settle()
+				defer pcancel()
+				if !ret {
+					// whether it returns at all is C11's / C18's matter
+					return
+				}
+				if perr == nil {
+					vrt.Failf("timeout/ping-success-without-pingresp/"+how, "Ping returned nil although the peer never answered")
+					return
+				}
+				seen = perr.Error()
+				var rte *mqtt.RequestTimeoutError
+				isRTE := errors.As(perr, &rte)
+				switch how {
+				case "caller-cancel", "caller-deadline":
+					ce := pctx.Err()
+					if ce == nil || !errors.Is(perr, ce) {
+						vrt.Failf("timeout/caller-context-error-lost/"+how, "the caller's context ended first (%v) but errors.Is(err, that) is false for the error Ping returned: %T %v", ce, perr, perr)
+					} else if isRTE {
+						vrt.Failf("timeout/reported-without-timeout/"+how, "ResponseTimeout (2 s) did not expire, the caller's context ended at 500 ms, but the error is a RequestTimeoutError: %v", perr)
+					}
+				default:
+					if !isRTE {
+						vrt.Failf("timeout/not-identifiable/ping/"+how, "ResponseTimeout expired first but the error Ping returned is not identifiable as *RequestTimeoutError: %T %v", perr, perr)
+					}
+				}
+			},
+			Observe: func() uint64 { return net.TraceHash() ^ vrt.HashString(seen) },
+		}
+		c.Explore(sc)
 	}
 }
 
